@@ -107,14 +107,16 @@ fn exec<D: Doc>(p: &PrepDoc<D>, entry: Entry, k: usize, scratch: &std::path::Pat
 fn cases(seed: u64, doc: &str, vi: u64, p_len: usize, boundaries: &[usize], tier: Tier) -> Vec<(Entry, usize)> {
     let mut r = Rng::new(mix(seed, "c11cases", fx(doc), vi));
     let mut out = Vec::new();
-    for k in 0..p_len {
+    let all = positions(p_len, false, &mut r);
+    for &k in &all {
         out.push((Entry::Full, k));
         out.push((Entry::Eps, k));
         out.push((Entry::SimEof, k));
     }
     // file-backed entry points: every k (thorough) or every write-event boundary ±1 plus seeded cuts (quick)
     let ks: Vec<usize> = match tier {
-        Tier::Thorough => (0..p_len).collect(),
+        _ if p_len > 24 * 1024 => all.iter().copied().step_by(4).collect(),
+        Tier::Thorough => all.clone(),
         Tier::Quick => {
             let mut ks: Vec<usize> = Vec::new();
             for &b in boundaries {
@@ -161,13 +163,13 @@ impl DocFn for RunUnit<'_> {
     fn call<D: Doc>(self) {
         let RunUnit { ctx, unit, vi } = self;
         ctx.begin(unit, u64::MAX);
-        let Some(p) = prep_doc::<D>(ctx.seed, ID, vi, ctx.tier) else {
+        let Some(p) = prep_doc_need::<D>(ctx.seed, ID, vi, ctx.tier, Need::Stream) else {
             ctx.count("control_failures");
             return;
         };
         ctx.docs_seen.insert(D::NAME.to_string());
         let rows = row_classes(&p.schema);
-        let canon_digest = Fnv::new().bytes(&p.canon).get();
+        let canon_digest = Fnv::new().bytes(&p.b).get();
         let cs = cases(ctx.seed, D::NAME, vi, p.b.len(), &boundaries_of(&p), ctx.tier);
         let scratch = ctx.scratch.clone();
         for (sub, (entry, k)) in cs.iter().enumerate() {
@@ -220,7 +222,7 @@ struct CaseAt {
 impl DocFn for CaseAt {
     type Out = Option<Case>;
     fn call<D: Doc>(self) -> Option<Case> {
-        let p = prep_doc::<D>(self.seed, ID, self.vi, self.tier)?;
+        let p = prep_doc_need::<D>(self.seed, ID, self.vi, self.tier, Need::Stream)?;
         cases(self.seed, D::NAME, self.vi, p.b.len(), &boundaries_of(&p), self.tier).get(self.sub as usize).map(|(entry, k)| Case { doc: D::NAME.into(), vi: self.vi, entry: *entry, k: *k })
     }
 }
@@ -238,7 +240,7 @@ struct Replay<'a> {
 impl DocFn for Replay<'_> {
     type Out = Result<Option<Violation>, String>;
     fn call<D: Doc>(self) -> Self::Out {
-        let Some(p) = prep_doc::<D>(self.seed, ID, self.case.vi, self.tier) else { return Err("the fault-free control run of this value fails".into()) };
+        let Some(p) = prep_doc_need::<D>(self.seed, ID, self.case.vi, self.tier, Need::Stream) else { return Err("the fault-free control run of this value fails".into()) };
         Ok(exec(&p, self.case.entry, self.case.k, &self.scratch).err())
     }
 }
